@@ -304,3 +304,52 @@ PLANS["C09"] = {
         "what RenderTo wrote before returning an error is not inspected here (C15 does)",
     ],
 }
+
+
+ALLCRE = '{"core", "csv", "html", "json", "markdown", "texttable", "auto:csv", "auto:utf8-light"}'
+ALLFMT = '{"text", "csv", "html", "json", "md"}'
+
+
+def _wmc(content, creators, kinds, wraps, renders, targets=ALLFMT):
+    return dict(Content=content, Creators=Raw(creators), WrapKinds=Raw(kinds), MaxWraps=wraps, MaxRenders=renders, Targets=Raw(targets))
+
+
+PLANS["C10"] = {
+    "facets": "same",
+    "own": ["res.same", "out.text", "out.csv", "out.html", "out.json", "out.md", "out.errtext", "res.dec"],
+    "mc": [
+        {"module": "MCWrap", "properties": ["RenderPure"],
+         "quick": _wmc("c1", ALLCRE, '{"text", "csv", "md"}', 2, 1),
+         "thorough": _wmc("c1", ALLCRE, ALLFMT, 3, 1)},
+        {"module": "MCWrap", "properties": ["RenderPure"],
+         "quick": _wmc("c3", ALLCRE, '{"text", "md"}', 1, 1),
+         "thorough": _wmc("c3", ALLCRE, ALLFMT, 2, 1)},
+        {"module": "MCWrap", "properties": ["RenderPure"],
+         "quick": _wmc("c2", ALLCRE, '{"text", "html"}', 1, 1),
+         "thorough": _wmc("c2", ALLCRE, ALLFMT, 2, 1)},
+    ],
+    "random": [{"gen": gens.gen_paths}],
+    "min_scenarios": {"quick": 2000, "thorough": 30000},
+    "assumptions": [
+        "the reference output is the same content rebuilt on a core New() table and rendered by the format's own Wrap(...).Render() with the same decoration / html options; byte equality is decided by Go's ==",
+    ],
+}
+
+PLANS["C14"] = {
+    "facets": "rep,grid,text,props,errs",
+    "own": ["res.rep", "grid", "drows", "text", "props", "errs"],
+    "mc": [
+        {"module": "MCWrap", "properties": ["RenderPure"], "run_opts": {"every": True},
+         "quick": _wmc("c1", '{"core"}', '{"text", "md", "html"}', 2, 3, '{"text", "md", "html", "csv"}'),
+         "thorough": _wmc("c1", '{"core", "texttable"}', ALLFMT, 2, 3)},
+        {"module": "MCWrap", "properties": ["RenderPure"], "run_opts": {"every": True},
+         "quick": _wmc("c3", '{"core", "markdown"}', '{"text", "md"}', 2, 3, '{"text", "md", "json"}'),
+         "thorough": _wmc("c3", '{"core", "markdown"}', ALLFMT, 2, 3)},
+    ],
+    "random": [{"gen": gens.gen_repeat}],
+    "min_scenarios": {"quick": 1000, "thorough": 20000},
+    "assumptions": [
+        "no user callbacks are registered (the statement excludes callbacks that fail or mutate)",
+        "first-output identity is kept by the driver per (content version, format, decoration, html options)",
+    ],
+}
